@@ -150,6 +150,11 @@ def run(prop, tier):
     # a sample through the real `quiv run` on the serialised bytecode
     cli_checked = 0
     quiv = "/repo/target/debug/quiv"
+    try:
+        subprocess.run(["cargo", "build", "--offline", "-p", "quiver-cli"], cwd="/repo", capture_output=True, timeout=900,
+                       env=dict(os.environ, CARGO_NET_OFFLINE="true"))
+    except subprocess.TimeoutExpired:
+        pass
     if os.path.exists(quiv):
         for r in reqs[:40]:
             path = os.path.join(bcdir, r["id"] + ".qx")
@@ -161,7 +166,16 @@ def run(prop, tier):
             except subprocess.TimeoutExpired:
                 continue
             cli_checked += 1
-            check.cov.setdefault("cli_outputs", []).append(pr.stdout.strip()[:80]) if cli_checked <= 3 else None
+            want = o["configs"]["merged"].get("formatted")
+            got = pr.stdout.strip()
+            if want == "[]" and got == "":
+                got = "[]"          # the CLI prints nothing for a nil result
+            if want is not None and got != want:
+                check.violation({"property": prop, "rule": "CliAgrees", "program": r["src"], "history": r["history"],
+                                 "quiv_run": got, "expected": want}, name="CliAgrees", key="CliAgrees:" + r["group"],
+                                what="`quiv run` on the serialised bytecode printed %r, the in-process run gives %r" % (got[:100], want[:100]))
+            if cli_checked <= 3:
+                check.cov.setdefault("cli_outputs", []).append([got[:80], (want or "")[:80]])
     check.cov["cli_runs"] = cli_checked
     check.cov["traces_validated_against_impl"] = nrec
     check.cov["evaluations"] = nrec
